@@ -6,7 +6,9 @@ import TempestVerif.Sc
       if abs(np.sum(weights) - 1.0) > SQRTEPS:                  -- SQRTEPS = sqrt(2^-52) = 2^-26
           weights = np.array(weights) / np.sum(weights)
       positions = (np.random.random() + np.arange(size)) / size
-      j = 0; j_max = len(weights) - 1
+      j = 0
+      positive = np.flatnonzero(np.asarray(weights) > 0)        -- since /repo 5a51476: the comb stops at the last index of
+      j_max = positive[-1] if len(positive) else len(weights) - 1   -- POSITIVE weight (trailing zero weights are never selected)
       cumulative_sum = weights[0]                               -- IndexError on an empty vector
       for i in range(size):
           while j < j_max and positions[i] >= cumulative_sum:
@@ -51,16 +53,37 @@ def run (w : List α) (jmax : Nat) (pos : Nat → α) : List Nat → Nat → α 
     let st := advance w jmax (pos i) w.length j c
     st.1 :: run w jmax pos is st.1 st.2
 
+/-- position (from the head) of the last entry `> 0`, if there is one -/
+@[simp] def lastPos? : List α → Option Nat
+  | [] => none
+  | x :: xs => match lastPos? xs with
+    | some k => some (k + 1)
+    | none => if Sc.gt x Sc.zero then some 0 else none
+
+/-- `j_max`: `np.flatnonzero(weights > 0)[-1]`, or `len(weights) - 1` when no weight is positive -/
+@[simp] def lastPositive (v : List α) : Nat := (lastPos? v).getD (v.length - 1)
+
 /-- `systematic_resample(n, w)` with `np.random.random() = u0` and `np.sum(w) = s`;
     `none` = `IndexError` (`weights[0]` on an empty vector). -/
 def systematicWith (s : α) (n : Nat) (w : List α) (u0 : α) : Option (List Nat) :=
   let v := renorm s w
   match v with
   | [] => none
-  | c0 :: _ => some (run v (v.length - 1) (position n u0) (List.range n) 0 c0)
+  | c0 :: _ => some (run v (lastPositive v) (position n u0) (List.range n) 0 c0)
 
 def systematic (n : Nat) (w : List α) (u0 : α) : Option (List Nat) :=
   systematicWith (Sc.sum w) n w u0
+
+/-- the rule BEFORE /repo 5a51476 (`j_max = len(weights) - 1`: the last index absorbed the shortfall of the running sum even
+    when its weight was 0) — kept for the witness of that defect -/
+def systematicWithOld (s : α) (n : Nat) (w : List α) (u0 : α) : Option (List Nat) :=
+  let v := renorm s w
+  match v with
+  | [] => none
+  | c0 :: _ => some (run v (v.length - 1) (position n u0) (List.range n) 0 c0)
+
+def systematicOld (n : Nat) (w : List α) (u0 : α) : Option (List Nat) :=
+  systematicWithOld (Sc.sum w) n w u0
 
 /-! ### `np.sum` on a contiguous float64 vector: numpy's pairwise summation
 
